@@ -16,7 +16,7 @@ func init() {
 			return 2
 		}
 		return r.Finish(ev.Coverage{Evaluations: evals, Distinct: nontriv, Exhaustive: true,
-			Rule: "differential round trip (export -> own validation -> JSON -> InitGenesis on a fresh app -> raw store comparison -> second export) over states built through the real keepers: a tendermint client updated by real signed headers to every height with one non-zero byte (all 255 values x byte positions, quick: two low positions + separator-like bytes everywhere), tendermint clients for every such revision number, BSC and ETH clients created at every such height, TSS clients with relayers, every prefix of a scripted three-chain relay history on all three chains (each holds commitments, receipts and acknowledgements on two paths), aggregate registry states, and every reward list of a small alphabet accepted by the parameter validators (unsorted, zero amounts, three denominations, 2^128-1) set through the real parameter-change handler with vesting on and off. evaluations = round trips; distinct_nontrivial = distinct clients/heights/states inside them",
+			Rule: "differential round trip (export -> own validation -> JSON -> InitGenesis on a fresh app -> raw store comparison -> second export) over states built through the real keepers: a tendermint client updated by real signed headers to every height with one non-zero byte (all 255 values x byte positions, quick: two low positions + separator-like bytes everywhere), tendermint clients for every such revision number, BSC and ETH clients created at every such height, TSS clients with relayers, one chain whose BSC, ETH and TSS clients carry update histories (validator-set switch with recent signers and pending validators, fork with branch switch and orphan, TSS updates), every prefix of a scripted three-chain relay history on all three chains (each holds commitments, receipts and acknowledgements on two paths), aggregate registry states, and every reward list of a small alphabet accepted by the parameter validators (unsorted, zero amounts, three denominations, 2^128-1) set through the real parameter-change handler with vesting on and off. evaluations = round trips; distinct_nontrivial = distinct clients/heights/states inside them",
 			Bounds: map[string]interface{}{"tier": tier},
 			Assumptions: []string{"module-level round trip (the statement's three modules); EVM/bank state is imported by their own modules", "heights >= 2^63 are not reachable for tendermint headers (int64) and are only covered for BSC/ETH clients"}})
 	}}
